@@ -54,6 +54,9 @@ def impl_line(kind, enc, *args):
     from senaite.astm import codec
     if kind == "dm":
         ok, r = ok_or_err(codec.decode_message, args[0], enc)
+        ok_k, r_k = ok_or_err(lambda: codec.decode_message(args[0], encoding=enc))
+        if (ok, r if ok else None) != (ok_k, r_k if ok_k else None):
+            return "ok? keyword-and-positional-encoding-differ"
         return "ok %d %s %s" % (r[0], hexb(r[2].encode("latin-1")), records_wire(r[1])) if ok else "err"
     if kind == "dec":
         ok, r = ok_or_err(codec.decode, args[0], enc)
@@ -63,6 +66,10 @@ def impl_line(kind, enc, *args):
         return "ok %d %s" % (r[0], records_wire(r[1])) if ok else "err"
     if kind == "dr":
         ok, r = ok_or_err(codec.decode_record, args[0], enc)
+        # the same call with the encoding given by keyword
+        ok_k, r_k = ok_or_err(lambda: codec.decode_record(args[0], encoding=enc))
+        if (ok, r if ok else None) != (ok_k, r_k if ok_k else None):
+            return "ok? keyword-and-positional-encoding-differ %r / %r" % (r, r_k)
         return "ok %s" % record_wire(r) if ok else "err"
     if kind == "er":
         ok, r = ok_or_err(codec.encode_record, args[0], enc)
